@@ -4,7 +4,7 @@ from common import *  # noqa: F401,F403
 RULE = ("GeneratorKnotVector.bezier/integer/uniform/random/weight for degree 0..6, npts up to 60 (quick) / 400 (thorough), cls in "
         "{int, float, Fraction}; shift / scale / normalize on random valid vectors (Fraction and float); basis-function and curve "
         "invariance under u -> s*u + a.  Non-trivial: npts > degree + 1; distinct = distinct (generator, arguments)."
-        " Also: one KnotVector object inspected and evaluated before in-place shift/scale/normalize/convert; far exact translations (1e6..1e12).")
+        " Also: one KnotVector object inspected and evaluated before in-place shift/scale/normalize/convert; far exact translations (1e6..1e12); the basis over exact generated vectors evaluated after their int / float twins.")
 EXPLANATION = ("L2: generator output vs the model (exact for Fraction/int, 1e-12 for float with the interval ends compared exactly); L3: degree, "
                "npts, simple interior knots, spacing, exact [0,1] limits, preserved multiplicities and the affine-invariance identity evaluated "
                "exactly on the real objects.")
@@ -87,6 +87,22 @@ def run_case(ctx, case):
                 rec.violation("weight: knot spacing differs from the weights", case)
         if clsname == "Fraction" and not all(isinstance(x, F) for x in kv):
             rec.violation("%s: knots are not exact Fractions for cls=Fraction" % gen, case, observed=str([type(x).__name__ for x in kv][:4]))
+        if clsname == "Fraction" and gen in ("bezier", "integer", "uniform") and p <= 4 and n <= 12:
+            # the generated vector is used: the basis over the exact vector is exact, also after the int and the float version of the
+            # very same generator call were evaluated (anything memoised on numerically equal knot tuples is then not exact)
+            for other in (int, float):
+                tw = impl(lambda: G.bezier(p, other) if gen == "bezier" else (G.integer(p, n, other) if gen == "integer" else G.uniform(p, n, other)))
+                if tw[0] == "ok":
+                    impl(lambda: Function(tw[1])((tw[1][0] + tw[1][-1]) / 2))
+            us_ = [U[0], U[-1], (U[0] + U[-1]) / 2, U[0] + (U[-1] - U[0]) * F(1, 3)]
+            got = impl(lambda: [tuple(Function(kv)(u)) for u in us_])
+            want = [drv.call("basis.eval", U, None, p, u) for u in us_]
+            l3(rec, "basis-of-generated-vector")
+            rec.count("gen-evaluated", gen)
+            if got[0] != "ok":
+                rec.violation("basis over a generated vector cannot be evaluated", case, observed=got[1])
+            elif any(w[0] != "ok" or tuple(frac(x) for x in g_) != tuple(w[1]) or has_float(g_) for g_, w in zip(got[1], want)):
+                rec.violation("basis over the exact generated vector is not the exact Cox-de Boor basis", case, observed=ser([list(map(str, g_)) for g_ in got[1]][:2]))
         return
     if kind == "affine":
         U, a, s, rep = c["U"], c["a"], c["s"], c["rep"]
